@@ -2,6 +2,9 @@
 # MANIFEST.setup_cmd: builds the Lean model, all drivers and all proof modules from files on disk.
 set -e
 cd "$(dirname "$0")/../lean"
-TARGETS="RomeaModel RomeaProofs $(grep -A1 '^\[\[lean_exe\]\]' lakefile.toml | grep '^name' | sed 's/name = "\(.*\)"/\1/' | tr '\n' ' ')"
+TARGETS="RomeaModel RomeaProofs"
+for f in Drivers/C*.lean; do
+  [ -f "$f" ] && TARGETS="$TARGETS drv_$(basename "$f" .lean | tr 'A-Z' 'a-z')"
+done
 echo "lake build $TARGETS"
 lake build $TARGETS 2>&1 | tail -5
